@@ -4,6 +4,7 @@ Hdl21 Parameters and Param-Classes
 
 # Std-Lib Imports
 import dataclasses, inspect, json, hashlib
+from decimal import Decimal
 from typing import Optional, Any, Type, TypeVar, Dict
 
 # PyPi Imports
@@ -261,6 +262,24 @@ def _unique_name(params: Any) -> str:
     return h.hexdigest()
 
 
+def _value_name(num: Decimal) -> str:
+    """The *value* of decimal number `num`, written as `<coefficient>e<exponent>` with no trailing zeros
+    in the coefficient, and zero as `0e0`. Equal numbers get equal text, unequal numbers get different text,
+    however they were written: `Decimal("2000")`, `Decimal("2E+3")` and `Decimal("2.000E3")` all give `2e3`.
+    (JSON-encoding the number as an int or float, as is otherwise done, depends on how it was written,
+    and gives different numbers the same text once they differ beyond the precision of a float.)"""
+
+    sign, digits, exp = num.as_tuple()
+    if not isinstance(exp, int):
+        return str(num)  # Infinities and NaNs
+    coef = int("".join(str(d) for d in digits) or "0")
+    if coef == 0:
+        return "0e0"
+    while coef % 10 == 0:
+        coef, exp = coef // 10, exp + 1
+    return f"{'-' if sign else ''}{coef}e{exp}"
+
+
 def hdl21_naming_encoder(obj: Any) -> Any:
     """JSON encoder for naming of Hdl21 parameter-values.
 
@@ -278,10 +297,20 @@ def hdl21_naming_encoder(obj: Any) -> Any:
     from .instance import Instance
     from .generator import Generator
     from .primitives import Primitive, PrimitiveCall
+    from .prefix import Prefixed, Prefix
 
     if isinstance(obj, (Instance,)):
         # Not supported as parameters
         raise RuntimeError(f"Invalid `hdl21.paramclass` field {obj}")
+
+    if isinstance(obj, Prefixed):
+        # Name prefixed numbers by their *value*. Numbers such as `2*K`, `2000*UNIT` and `2.000*K` are equal,
+        # so they are one parameter value and one generator call, and must produce one name.
+        return {"prefixed": _value_name(obj.scale(Prefix.UNIT).number)}
+
+    if isinstance(obj, Decimal):
+        # Same for bare decimals: `Decimal("2")` and `Decimal("2.0")` are equal
+        return {"decimal": _value_name(obj)}
 
     if isinstance(obj, (Module, ExternalModule, Generator)):
         # Use qualified class names/paths
